@@ -34,6 +34,7 @@ SELFTEST = [
     {"mutation": "InboundTimeout arm: push the InboundFailure before / regardless of `if removed`", "caught_by": "arm/InboundTimeout: outcome only after the id was removed"},
     {"mutation": "InboundStreamFailed arm: `if !removed`", "caught_by": "arm/InboundStreamFailed: removed => exactly one outcome"},
     {"mutation": "ResponseOmission arm: is_pending_inbound instead of remove_pending_inbound_response", "caught_by": "arm/ResponseOmission: pending-set removal exactly once"},
+    {"mutation": "seeded/C45b: early return extended to `DialPeerConditionFalse(_) | Aborted`", "caught_by": "dial-failure/only DialPeerConditionFalse (or a failure without peer) leaves the queued requests untouched"},
     {"mutation": "on_dial_failure: `.get(&peer)` + iter() instead of `.remove(&peer)`", "caught_by": "dial-failure/queued requests are taken (HashMap::remove)"},
     {"mutation": "on_connection_closed: second loop emits nothing", "caught_by": "closed/pending_outbound_responses: one failure per pending id"},
     {"mutation": "preload_new_handler: register the connection only if it has pending requests", "caught_by": "preload/the connection (with its pending set) is registered on every path"},
@@ -368,6 +369,22 @@ def _check(ctx, prog):
         ctx.ob("dial-failure", "removed requests are always drained", got == (1, 1), s.loc(), "loop entered on the Some edge: %s" % (got,))
     for s, o in dp:
         ctx.ob("dial-failure", "outcome kind", o[:2] == ("OutboundFailure", "DialFailure"), s.loc(), str(o[:2]))
+    # which dial errors may leave the queued requests untouched: only DialPeerConditionFalse (another dial is still pending) and a failure without peer
+    skip_ok = set(P.outcome_edges(d, lambda y: DN.r(y) == "$2.peer_id", False))
+    labels_seen = set()
+    for bi in d.live:
+        info = d.switch_info(bi)
+        if info and info[0][0] == "discr" and DN.r(info[0][1]) == "$2.error":
+            for tg, ls in info[1].items():
+                labels_seen |= set(ls)
+                if ls and ls <= {"DialPeerConditionFalse"}:
+                    skip_ok.add((bi, tg))
+    for s in rm:
+        r_ = d.reachable_bool([0], blocked_nodes=[s.bb], blocked_edges=skip_ok | P.const_dead_edges(d))
+        leak = sorted(set(d.return_blocks()) & r_)
+        ctx.ob("dial-failure", "only DialPeerConditionFalse (or a failure without peer) leaves the queued requests untouched", not leak, s.loc(),
+               "every other dial error reaches pending_outbound_requests.remove(peer)" if not leak else
+               "the function can return without draining the peer's queued requests on a dial error other than DialPeerConditionFalse: those requests never get an outcome")
 
     # ================================================================= preload_new_handler(self, handler = $2, peer = $3, connection_id = $4, remote_address = $5)
     p = ctx.body(RR, r"^libp2p_request_response::Behaviour::preload_new_handler$")
